@@ -397,7 +397,14 @@ class LatticeColumn:
         c = self.o[matching.obs_ne]
         if matching.key in c:
             other_matching = c[matching.key]  # type: BaseMatching
-            other_matching.update(matching)
+            if other_matching.stop and not matching.stop:
+                # A stopped matching is only kept when debugging. Replace it such that the order
+                # of the matchings (and thus the choice between equally probable paths) is the
+                # same as without debugging.
+                del c[matching.key]
+                c[matching.key] = matching
+            else:
+                other_matching.update(matching)
         else:
             c[matching.key] = matching
         return c[matching.key]
@@ -971,14 +978,14 @@ class BaseMatcher:
                             if m_next.key in cur_lattice_new:
                                 if m_next.shortkey in lattice_best:
                                     if approx_leq(m_next.dist_obs, lattice_best[m_next.shortkey].dist_obs):
-                                        cur_lattice_new[m_next.key].update(m_next)
+                                        self.lattice[obs_idx].upsert(m_next)
                                     else:
                                         m_next.stop = True
                                         if __debug__ and logger.isEnabledFor(logging.DEBUG):
                                             logger.debug(f"   | Stopped trace: distance larger than best for key {m_next.shortkey}: "
                                                          f"{m_next.dist_obs} > {lattice_best[m_next.shortkey].dist_obs}")
                                 else:
-                                    cur_lattice_new[m_next.key].update(m_next)
+                                    self.lattice[obs_idx].upsert(m_next)
                             else:
                                 if m_next.shortkey in lattice_best:
                                     # if m_next.logprob > lattice_best[m_next.shortkey].logprob:
@@ -1026,23 +1033,18 @@ class BaseMatcher:
                         edge_o = Segment(f"O{obs_idx}", obs, f"O{obs_idx+1}", obs_next)
                         m_next = m.next(edge_m, edge_o, obs=obs_idx, obs_ne=nb_ne)
                         if m_next is not None:
-                            if m_next.key in cur_lattice_new:
-                                cur_lattice_new[m_next.key].update(m_next)
-                            else:
-                                if m_next.shortkey in lattice_best:
-                                    # if m_next.logprob > lattice_best[m_next.shortkey].logprob:
-                                    if m_next.dist_obs < lattice_best[m_next.shortkey].dist_obs:
-                                        cur_lattice_new[m_next.key] = m_next
-                                        lattice_best[m_next.shortkey] = m_next
-                                        # lattice_toinsert.append(m_next)
-                                    elif __debug__ and logger.isEnabledFor(logging.DEBUG):
-                                        m_next.stop = True
-                                        cur_lattice_new[m_next.key] = m_next
-                                        # lattice_toinsert.append(m_next)
-                                else:
+                            m_cur = cur_lattice_new.get(m_next.key)
+                            if m_next.stop or (m_cur is not None and not m_cur.stop):
+                                # Stopped matchings only exist when debugging, they do not influence the search
+                                self.lattice[obs_idx].upsert(m_next)
+                            elif m_next.shortkey in lattice_best and \
+                                    not m_next.dist_obs < lattice_best[m_next.shortkey].dist_obs:
+                                # if m_next.logprob > lattice_best[m_next.shortkey].logprob:
+                                if __debug__ and logger.isEnabledFor(logging.DEBUG) and m_cur is None:
+                                    m_next.stop = True
                                     cur_lattice_new[m_next.key] = m_next
-                                    lattice_best[m_next.shortkey] = m_next
-                                    # lattice_toinsert.append(m_next)
+                            else:
+                                lattice_best[m_next.shortkey] = self.lattice[obs_idx].upsert(m_next)
                             # cur_lattice_new.add(m_next)
                             if __debug__:
                                 logger.debug(str(m_next))
@@ -1080,7 +1082,10 @@ class BaseMatcher:
                         edge_o = Segment(f"O{obs_idx+1}", obs_next)
                         m_next = m.next(edge_m, edge_o, obs=obs_idx)
                         if m_next is not None:
-                            if m_next.shortkey in lattice_best:
+                            if m_next.stop:
+                                # Only exists when debugging, does not influence the search
+                                self.lattice[obs_idx].upsert(m_next)
+                            elif m_next.shortkey in lattice_best:
                                 # if m_next.dist_obs < lattice_best[m_next.shortkey].dist_obs:
                                 if m_next.logprob > lattice_best[m_next.shortkey].logprob:
                                     lattice_best[m_next.shortkey] = m_next
@@ -1124,7 +1129,10 @@ class BaseMatcher:
                         edge_o = Segment(f"O{obs_idx+1}", obs_next)
                         m_next = m.next(edge_m, edge_o, obs=obs_idx)
                         if m_next is not None:
-                            if m_next.shortkey in lattice_best:
+                            if m_next.stop:
+                                # Only exists when debugging, does not influence the search
+                                self.lattice[obs_idx].upsert(m_next)
+                            elif m_next.shortkey in lattice_best:
                                 # if m_next.dist_obs < lattice_best[m_next.shortkey].dist_obs:
                                 if m_next.logprob > lattice_best[m_next.shortkey].logprob:
                                     lattice_best[m_next.shortkey] = m_next
